@@ -383,6 +383,73 @@ def rule_r2(rep, program: Program):
         r.inst({"finalize call": args})
         if len(args) < 3 or args[2] != "stage.adapters":
             r.violate(PROP, f"sample_chains:_finalize_adapters:{args}", "adapters finalised are not the current stage's adapters", node=c, file=sc.file)
+    # guard of the finalisation: it must run whenever the stage produced adapter states at all
+    nonempty = {"len(adapter_states) > 0", "len(adapter_states) != 0", "len(adapter_states) >= 1", "0 < len(adapter_states)", "adapter_states", "len(adapter_states)", "bool(adapter_states)", "stage.adapters is not None", "stage.adapters", "adapter_states is not None"}
+    parents = {}
+    for n in ast.walk(sc.node):
+        for ch in ast.iter_child_nodes(n):
+            parents[ch] = n
+    for c in fin:
+        conj = []
+        node = c
+        while node in parents and not isinstance(parents[node], ast.For):
+            par = parents[node]
+            if isinstance(par, ast.If):
+                in_body = any(node is x for x in par.body)
+                tests = par.test.values if isinstance(par.test, ast.BoolOp) and isinstance(par.test.op, ast.And) else [par.test]
+                if not in_body:
+                    tests = [ast.UnaryOp(op=ast.Not(), operand=par.test)]
+                conj.extend(tests)
+            node = par
+        r.inst({"finalisation guard": [norm(t) for t in conj]})
+        if not conj:
+            continue
+        for t in conj:
+            txt = norm(t)
+            if txt in nonempty:
+                continue
+            if "adapter_states" in txt or "adapters" in txt:
+                r.violate(PROP, f"sample_chains:finalize-guard:{txt[:60]}", f"stage finalisation is additionally guarded by `{txt}`, which is stronger than 'the stage produced adapter states': a stage that performed adaptation updates can end without _finalize_adapters (e.g. one transition without active adapters next to one with), so the main stage runs with an unfinalised step size / metric", node=t if hasattr(t, "lineno") else c, file=sc.file)
+            else:
+                raise AnalysisError(f"sample_chains: finalisation guarded by a condition outside the grammar: {txt[:60]}")
+    # _finalize_adapters visits every (transition, adapter) pair unconditionally and pairs each
+    # adapter with its own states and its own transition
+    fa = program.func("samplers", "_finalize_adapters")
+    calls = [c for c in ast.walk(fa.node) if isinstance(c, ast.Call) and isinstance(c.func, ast.Attribute) and c.func.attr == "finalize"]
+    if len(calls) != 1:
+        raise AnalysisError("_finalize_adapters: expected exactly one .finalize(...) call")
+    fparents = {}
+    for n in ast.walk(fa.node):
+        for ch in ast.iter_child_nodes(n):
+            fparents[ch] = n
+    chain = []
+    node = calls[0]
+    while node in fparents:
+        node = fparents[node]
+        chain.append(node)
+    loops = [n for n in chain if isinstance(n, ast.For)]
+    conds = [n for n in chain if isinstance(n, (ast.If, ast.While, ast.Try))]
+    jumps = [n for n in ast.walk(fa.node) if isinstance(n, (ast.Break, ast.Continue, ast.Return)) and not (isinstance(n, ast.Return) and n.value is None and n is fa.node.body[-1])]
+    outer = loops[-1] if loops else None
+    inner = loops[0] if len(loops) > 1 else None
+    shape_ok = (
+        len(loops) == 2 and not conds and not jumps
+        and norm(outer.iter) == f"{fa.params[0]}.items()"
+        and isinstance(inner.iter, ast.Call) and norm(inner.iter.func) == "zip" and len(inner.iter.args) == 2
+    )
+    r.inst({"_finalize_adapters": [norm(l.iter)[:60] for l in loops], "conditions": len(conds), "jumps": len(jumps)})
+    if not shape_ok:
+        r.violate(PROP, "_finalize_adapters:not-all-pairs", "_finalize_adapters does not visit every (transition, adapter) pair unconditionally (loop over all items of the state dictionary, zip of that transition's states and adapters, no condition / break / slice): some adapter of a stage that updated is never finalised", node=fa.node, file=fa.file)
+    else:
+        key, lst = (norm(x) for x in outer.target.elts)
+        a_states, a_adapter = (norm(x) for x in inner.target.elts)
+        z = [norm(x) for x in inner.iter.args]
+        c = calls[0]
+        args = [norm(a) for a in c.args]
+        pair_ok = z == [lst, f"{fa.params[2]}[{key}]"] and norm(c.func.value) == a_adapter and args[0] == a_states and args[2] == f"{fa.params[3]}[{key}]" and args[1] == fa.params[1]
+        r.inst({"pairing": z, "finalize args": args})
+        if not pair_ok:
+            r.violate(PROP, f"_finalize_adapters:pairing:{z}:{args}"[:120], "an adapter is not finalised with its own per-chain states on its own transition (states list of the key zipped with adapters[key]; transitions[key])", node=c, file=fa.file)
     kws = [k for c in ast.walk(sc.node) if isinstance(c, ast.Call) and norm(c.func) == "sample_chains_func" for k in c.keywords if k.arg == "adapters"]
     if not kws or norm(kws[0].value) != "stage.adapters":
         r.violate(PROP, f"sample_chains:adapters={norm(kws[0].value) if kws else None}", "chains are not given the current stage's adapters", node=sc.node, file=sc.file)
